@@ -1,9 +1,83 @@
-# C09 — state-machine determinism (work in progress: tie 1 only; the re-execution family follows)
+# C09 — state-machine determinism: same blocks, same state and results
+import os, json, re
+
 LEAN_MODULES = ["Sif.Props.C09"]
 EXTRACT = [{"group": "replay", "passes": ["mapranges"]}]
-FAMILIES = []
-RULE = ""
-TRUSTED_BASE = []
-ASSUMPTIONS = []
-UNPROVED = []
-MANIFEST = {"text": "", "note": "", "technique": "", "design_ref": "4/C09"}
+FAMILIES = [
+    # -n = N, the number of executions of every history (pilot + fresh instances, half of the re-executions in
+    # separate OS processes); the main history has 40 + 2N blocks
+    {"name": "replay", "family": "replay", "group": "replay", "driver": "drv_replay",
+     "n_quick": 8, "n_thorough": 64, "seeds_thorough": 2},
+]
+RULE = ("replay: one generated all-module history (5 pools, 14 providers incl. a blocked recipient, LPPD, depth rewards in "
+        "wallet and pool mode, epoch bucket payouts in both modes, ratio shifting (float code), liquidity protection, "
+        "conflicting bridge claims with tied power, lock/burn, dispensation create/run/claim, margin open/close/"
+        "force-close + hook liquidations, registry/admin/bank messages) plus three directed histories (de-whitelisted "
+        "claimants with a three-way power tie; genesis providers without accounts paid by LPPD / by the epoch hook), "
+        "each executed N times (N = 8 quick, 64 thorough) in fresh application instances, half of the re-executions in "
+        "separate OS processes; one `chk allEqual` line per block (N app hashes), per block (N EndBlock validator/"
+        "param updates) and per transaction (N tuples Code:Codespace:Data:GasWanted:GasUsed), judged by "
+        "Sif.Spec.C09.allEqualN.  non-trivial = distinct transaction line or block line")
+TRUSTED_BASE = [
+    "Lean 4.33.0 kernel; axioms propext, Classical.choice, Quot.sound (audited per theorem on every run)",
+    "fact translator extract/replay/mapranges.go (go/types via golang.org/x/tools/go/packages v0.29.0): its notion of map-typed "
+    "range operand, of float-typed expression, and its exclusion rule (directories client, simulation, test, testutil, "
+    "testhelpers, mock(s); files *_test.go, test_*.go, *_simulation.go)",
+    "the reviewed coverage table Sif.Spec.C09.coveredRanges / allowedUses (which theorem or reason covers which site) — "
+    "a human judgement, pinned to the exact loop bodies by the regenerated facts",
+    "hand-written Lean models of the map-ranging computations (Sif/Model/Determinism.lean); they abstract the per-iteration "
+    "work to 'reads and writes only its own keys' (pool record, per-asset component) — that abstraction is NOT checked "
+    "against the Go code by a proof, only exercised by the re-execution",
+    "NOT covered by any theorem (test only): the Go runtime's map iteration order and hash seeds, float code generation "
+    "(math.Pow, float64 division, Dec->float64 conversions), the cosmos-sdk modules, baseapp, IAVL, protobuf/JSON encoders",
+    "Go harness harness/replay (pilot + re-execution, worker processes), line protocol, drv_replay parser",
+]
+ASSUMPTIONS = [
+    "transfer_perm: sum of payouts <= module balance (consequence of C01 solvency and rate <= 1) and every recipient already has an auth account",
+    "pool-update loops: the map's pool pointers denote pairwise distinct pool symbols (GetPools yields one object per store key)",
+    "tally_perm_invariant: claim contents distinct (map keys), counted powers sum <= total whitelisted bonded power (holds with repair F2), "
+    "threshold predicate implies a strict majority (0.7 in float64 for powers < 2^48: argued, modelled exactly by C05)",
+    "events, logs and query answers are not consensus state (Tendermint 0.34 hashes Code, Data, GasWanted, GasUsed of DeliverTx only)",
+]
+UNPROVED = [
+    "bit-identical app hash across runs/processes on the REAL code: only tested by N-fold re-execution (Go map order, IAVL, encoders are outside the model)",
+    "float determinism of PolicyStart (math.Pow), GetSQFromBlocks (math.Pow, math.E), CalcMTPInterestLiabilities/CheckMinLiabilities (Dec->float64), "
+    "processCompletion (float64 division): argued in DESIGN 4/C09, not proved; exercised by re-execution on one platform only",
+    "that each iteration of the remaining map-ranging loops touches only its own keys (the premise 'local step' of the perm theorems) is read off the "
+    "code by hand and pinned by the call list of the loop body; it is not derived from the Go source by a proof",
+    "gas independence of map order is argued (the only in-transaction map range, FindHighestClaim, touches no store); tested by comparing GasUsed",
+]
+MANIFEST = {
+    "text": ("Lean 4 theorems: for a model of every remaining map-ranging computation of the consensus code (pool-record updates after LPPD and depth "
+             "rewards, the logged sum, the oracle tally) the resulting state is the same for every permutation of the iteration order, by List.Perm "
+             "induction; for the two payout loops that ranged over maps before repair F15 the order-independence is proved under 'recipients have "
+             "accounts' with a machine-checked counterexample without it (account numbers are assigned in creation order), and the repaired code sorts "
+             "the keys.  Tie 1: a go/types scan regenerates every range-over-map site (with loop body calls and exits) and every float/math/time/rand/"
+             "goroutine use; `decide` obligations require each to be a reviewed, covered site.  Tie 2 (a TEST, not a proof): the real application is "
+             "driven through InitChain/BeginBlock/DeliverTx/EndBlock/Commit with signed transactions on generated all-module histories, N = 8/64 times "
+             "in fresh instances and separate processes; app hashes and DeliverTx {Code,Data,GasWanted,GasUsed} are judged equal by a Lean predicate."),
+    "note": ("Proof covers the LOGIC of order-independence on hand-written models and the completeness of the site list; it cannot cover the Go runtime's "
+             "map order, float code generation, IAVL or encoders — those are only exercised by re-execution on this machine.  Found and repaired: F15 "
+             "(LPPD / epoch payouts in Go-map order create accounts in nondeterministic order when providers from a hand-made genesis have no account: "
+             "app hashes diverged between runs); confirms F2's consensus impact (tied claims of de-whitelisted validators: final claim chosen by map order)."),
+    "technique": "Lean 4 proof (perm-invariance + regenerated site list) + N-fold differential re-execution of the real app (test)",
+    "design_ref": "4/C09",
+}
+
+
+def extra(ctx):
+    """When a tie-1 obligation no longer checks, name the sites (so the replay file says which loop / float use is new)."""
+    if ctx["lean"]["ok"]:
+        return
+    src = ("import Sif.Spec.C09\nimport Sif.Generated.MapRanges\nopen Sif.Spec.C09 Sif.Generated.MapRanges\n"
+           "#eval (uncoveredRanges mapRanges).map (fun s => (s.pkg, s.fn, s.operand, s.calls, s.exits, s.next))\n"
+           "#eval (unallowedUses nondetUses).map (fun s => (s.pkg, s.fn, s.kind, s.n))\n#eval loadErrors\n")
+    p = os.path.join(ctx["cache"], "audit", "C09_sites.lean")
+    os.makedirs(os.path.dirname(p), exist_ok=True)
+    open(p, "w").write(src)
+    ctx["sh"](["lake", "build", "Sif.Spec.C09", "Sif.Generated.MapRanges"], cwd=os.path.join(ctx["root"], "lean"))
+    rc, out = ctx["sh"](["lake", "env", "lean", p], cwd=os.path.join(ctx["root"], "lean"))
+    for b in ctx["broken"]:
+        if b["kind"] == "proof":
+            b["what"] += ("\nmap-range sites not covered by an order-independence theorem / uses not in the allowed list / load errors "
+                          "(from the regenerated facts):\n" + out[-3000:])
